@@ -137,18 +137,20 @@ def counter2valueF (base : Float) (nr : Nat) (c : Nat) : Float :=
     let cprime := Float.ofNat (c - nr)
     (Float.pow base cprime - 1.0) / (base - 1.0) + Float.ofNat nr
 
-/-- One cell of `_merge_log16/8`, mirroring the float evaluation order of the code.
-    `wrap` is the counter modulus (2^16 or 2^8) for the `uintN(cprime)` cast. -/
+/-- One cell of `_merge_log16/8`, mirroring the float evaluation order of the code.  `maxc + 1` is the modulus of the cell type
+    (2^16 or 2^8: the `uintN(…)` casts and the stores into `cms`); `_counter2value` declares its counter parameter `uint16` for both
+    sketch types, so its argument is reduced modulo 2^16 (`Properties/SrcFloat.lean` proves this definition equal to the body as
+    translated from the source). -/
 def mergeLogCellF (base : Float) (nr maxc : Nat) (maxCount : Float) (a b : Nat) : Nat :=
   let v := counter2valueF base nr a + counter2valueF base nr b
-  if v ≤ Float.ofNat nr then v.toUInt64.toNat
+  if v ≤ Float.ofNat nr then v.toUInt64.toNat % (maxc + 1)
   else if v ≥ maxCount then maxc
   else
     let cprimeF := Float.log ((v - Float.ofNat nr) * (base - 1.0) + 1.0) / Float.log base
     let cprime := cprimeF.toUInt64.toNat % (maxc + 1)
     let clower := cprime + nr
-    let vlower := counter2valueF base nr (clower % (maxc + 1))
-    let vhigher := counter2valueF base nr ((clower + 1) % (maxc + 1))
+    let vlower := counter2valueF base nr (clower % 65536)
+    let vhigher := counter2valueF base nr ((clower + 1) % 65536)
     let delta := v - vlower
     if delta / (vhigher - vlower) ≤ 0.5 then clower % (maxc + 1) else (clower + 1) % (maxc + 1)
 
